@@ -141,7 +141,9 @@ class World(object):
         elif op == 'LList':
             t = rng.choice([b'LLIST', b'LLIST 10-', b'LLIST 20'])
         elif op == 'Edit':
-            t = rng.choice([b'EDIT 10', b'EDIT 20'])
+            # EDIT needs an existing line (else Undefined line number comes first); input selection only
+            have = sorted(n for n in self.s.impl.program.line_numbers if n < 65536) or [10]
+            t = b'EDIT %d' % rng.choice(have[:3])
         elif op == 'SaveA':
             t = rng.choice([b'SAVE "SA",A', b'SAVE "SA",a'])
         elif op == 'SaveB':
